@@ -186,6 +186,44 @@ class _Multi(dict):
     """several function nodes presented as one (the decoder plus the helpers/lambdas it was split into)"""
 
 
+def fold_loop_values(d, loop):
+    """the list of values a for-loop's single integer variable takes, folded with ceval (the body must not modify it) -> list or None"""
+    from .. import ceval
+    raw = loop.get("inner", [])
+    init, cond, inc = raw[0], raw[2], raw[3]
+    if not all(isinstance(x, dict) and x.get("kind") for x in (init, cond, inc)):
+        return None
+    vds = [c for c in ir.kids(init) if c.get("kind") == "VarDecl"]
+    if len(vds) != 1 or not ir.ekids(vds[0]):
+        return None
+    v = vds[0]
+    body = raw[4] if len(raw) > 4 and isinstance(raw[4], dict) else None
+    for x in (ir.walk_expr(body) if body else []):
+        if x.get("kind") in ("UnaryOperator", "BinaryOperator", "CompoundAssignOperator") and ir.ekids(x) and \
+                (x.get("opcode") in ("++", "--") or ((x.get("opcode") or "").endswith("=") and x.get("opcode") not in ("==", "!=", "<=", ">="))):
+            l_ = ir.strip(ir.ekids(x)[0])
+            if l_.get("kind") == "DeclRefExpr" and (l_.get("referencedDecl") or {}).get("id") == v.get("id"):
+                return None
+    it = ir.strip(inc)
+    try:
+        cur = ceval.conv(ceval.ev(ir.ekids(v)[-1], ceval.Ctx(d)), ir.qtype(v))
+        out = []
+        while len(out) <= 300:
+            if not ceval.ev(cond, ceval.Ctx(d, {v.get("id"): cur})):
+                return out
+            out.append(cur)
+            if it.get("kind") == "UnaryOperator" and it.get("opcode") in ("++", "--"):
+                cur = ceval.checked(cur + (1 if it.get("opcode") == "++" else -1), ir.qtype(v), it.get("opcode"))
+            elif it.get("kind") == "CompoundAssignOperator" and it.get("opcode") in ("+=", "-="):
+                stp = ceval.ev(ir.ekids(it)[1], ceval.Ctx(d, {v.get("id"): cur}))
+                cur = ceval.checked(cur + (stp if it.get("opcode") == "+=" else -stp), ir.qtype(v), it.get("opcode"))
+            else:
+                return None
+    except (ceval.Unknown, ceval.UB):
+        return None
+    return None
+
+
 def rule_alpha(rep, d, dec, enc, helpers=()):
     if helpers:
         merged = _Multi(dec)
@@ -346,9 +384,15 @@ def rule_alpha(rep, d, dec, enc, helpers=()):
                 rv = rhs
                 while rv[0] == "cast":
                     rv = rv[3]
-                if r is None or r[1] != (0, 63):
+                rng_ = r[1] if r else None
+                if r is None:
+                    # the values the loop variable takes, folded from the loop's own init / condition / step (a count-down loop, a stride)
+                    rng_ = fold_loop_values(d, n)
+                if rng_ is None:
+                    rep.inconclusive("C13.alpha", dec["name"], "table builder loop", where=d.where(n), detail="the values of the loop variable are not foldable")
+                elif (isinstance(rng_, tuple) and rng_ != (0, 63)) or (isinstance(rng_, list) and sorted(rng_) != list(range(64))):
                     rep.violates("C13.alpha", dec["name"], "table builder loop", where=d.where(n),
-                                 detail="the loop does not run over exactly i = 0..63 (found %s)" % (r[1] if r else "an unrecognised loop",))
+                                 detail="the loop does not run over exactly i = 0..63 (found %s)" % (rng_ if isinstance(rng_, tuple) else ("%d values, %s..%s" % (len(rng_), min(rng_) if rng_ else "-", max(rng_) if rng_ else "-")),))
                 elif var[0] != "ref" or rv != var:
                     rep.violates("C13.alpha", dec["name"], "table builder loop", where=d.where(a),
                                  detail="entry for alphabet[%s] is set to `%s`, expected the position itself" % (ir.show(var), ir.show(rhs)))
